@@ -436,6 +436,17 @@ impl Actor for Plain {
 
 // ------------------------------------------------------------------ the peer's end of a connection
 
+#[path = "../tcpq.rs"]
+mod tcpq;
+
+/// `--tcp 1`: every connection of the end-to-end engines is a REAL loopback TCP connection: the
+/// adversary dials the node's real `Listener` (server-side sessions) or the node dials the
+/// adversary's listener through the real `client_connect` (client-side sessions).
+static TCP: std::sync::atomic::AtomicBool = std::sync::atomic::AtomicBool::new(false);
+fn tcp_mode() -> bool {
+    TCP.load(std::sync::atomic::Ordering::Relaxed)
+}
+
 struct Duplex {
     stream: tokio::io::DuplexStream,
     label: String,
@@ -454,8 +465,18 @@ impl ClusterBidiStream for Duplex {
 }
 
 struct Conn {
-    r: tokio::io::ReadHalf<tokio::io::DuplexStream>,
-    w: Option<tokio::io::WriteHalf<tokio::io::DuplexStream>>,
+    r: Box<dyn tokio::io::AsyncRead + Unpin + Send>,
+    w: Option<Box<dyn tokio::io::AsyncWrite + Unpin + Send>>,
+    /// TCP mode: our socket (for an abortive close), the task copying what arrives into `r`, and the
+    /// PRNG choosing write boundaries / pauses / the way the connection is dropped
+    tcp_fd: Option<std::os::fd::RawFd>,
+    /// TCP mode: (our port, the node's port) of this connection
+    tcp_ports: Option<(u16, u16)>,
+    /// TCP mode: the write half of our socket (kept concrete: an abortive close must not be preceded
+    /// by the FIN that dropping an `OwnedWriteHalf` sends - `forget` it instead)
+    tw: Option<tokio::net::tcp::OwnedWriteHalf>,
+    pump: Option<tokio::task::JoinHandle<()>>,
+    frag: Option<Rng>,
     buf: Vec<u8>,
     cell: Option<ActorCell>,
     is_server: bool,
@@ -495,14 +516,86 @@ fn start_watchdog(bin: &'static str) {
 
 async fn quiesce() {
     PROGRESS.fetch_add(1, std::sync::atomic::Ordering::Relaxed);
+    if tcp_mode() {
+        // event-driven: runtime idle AND nothing unread / unsent / in flight on any socket of the process
+        tcpq::settle().await;
+        return;
+    }
     tokio::time::sleep(Duration::from_millis(1)).await;
 }
 
 impl Conn {
     async fn write(&mut self, bytes: &[u8]) {
+        if let Some(rng) = self.frag.as_mut() {
+            // real socket: PRNG-chosen write boundaries (every piece is its own `write` = its own
+            // segment with TCP_NODELAY) and PRNG pauses in between (none / a few yields / until the
+            // node has consumed the piece), so that the node's reader really sees partial reads
+            let mut cuts: Vec<usize> = Vec::new();
+            if bytes.len() > 1 {
+                for _ in 0..*rng.pick(&[0u64, 0, 1, 2, 3, 7]) {
+                    cuts.push(rng.range(1, bytes.len() as u64 - 1) as usize);
+                }
+            }
+            cuts.push(bytes.len());
+            cuts.sort_unstable();
+            cuts.dedup();
+            let mut at = 0;
+            for c in cuts {
+                let pause = rng.below(3);
+                let Some(w) = self.tw.as_mut() else { return };
+                if w.write_all(&bytes[at..c]).await.is_err() || w.flush().await.is_err() {
+                    self.tw = None;
+                    return;
+                }
+                at = c;
+                if at < bytes.len() {
+                    match pause {
+                        0 => {}
+                        1 => tokio::task::yield_now().await,
+                        _ => tcpq::settle().await,
+                    }
+                }
+            }
+            return;
+        }
         if let Some(w) = self.w.as_mut() {
             if w.write_all(bytes).await.is_err() || w.flush().await.is_err() {
                 self.w = None;
+            }
+        }
+    }
+
+    /// TCP mode: end the connection the way the PRNG says - half-close (FIN, our read side stays
+    /// open), full close (FIN), or abortive close (RST: SO_LINGER 0). Returns the way chosen.
+    async fn tcp_drop(&mut self) -> &'static str {
+        let how = self.frag.as_mut().map(|r| r.below(3)).unwrap_or(0);
+        match how {
+            0 => {
+                if let Some(mut wh) = self.tw.take() {
+                    let _ = wh.shutdown().await;
+                }
+                "halfclose"
+            }
+            1 => {
+                self.tw = None;
+                if let Some(p) = self.pump.take() {
+                    p.abort();
+                }
+                "close"
+            }
+            _ => {
+                if let Some(fd) = self.tcp_fd {
+                    tcpq::set_reset_on_close(fd);
+                }
+                // no FIN first: the write half is forgotten, the socket closes (RST) when the pump's
+                // read half goes
+                if let Some(wh) = self.tw.take() {
+                    wh.forget();
+                }
+                if let Some(p) = self.pump.take() {
+                    p.abort();
+                }
+                "reset"
             }
         }
     }
@@ -716,6 +809,9 @@ impl World {
     /// creation site); otherwise through `ConnectionOpened` (the creation site the TCP listener and
     /// `client::connect` use) with an in-memory `NetworkStream`.
     async fn connect(&mut self, is_server: bool, ext: bool) -> Conn {
+        if tcp_mode() && self.this_conn.is_some() {
+            return self.connect_tcp(is_server).await;
+        }
         let before: Vec<_> = self.node.get_children().iter().map(|c| c.get_id()).collect();
         let (ours, theirs) = tokio::io::duplex(1 << 20);
         self.label += 1;
@@ -740,7 +836,60 @@ impl World {
         quiesce().await;
         let cell = self.node.get_children().into_iter().find(|c| !before.contains(&c.get_id()));
         let (r, w) = tokio::io::split(ours);
-        Conn { r, w: Some(w), buf: Vec::new(), cell, is_server, chals: Vec::new(), last_issued: None, last_digest: None }
+        Conn { r: Box::new(r), w: Some(Box::new(w)), tcp_fd: None, tcp_ports: None, tw: None, pump: None, frag: None, buf: Vec::new(), cell, is_server, chals: Vec::new(), last_issued: None, last_digest: None }
+    }
+
+    /// A real loopback TCP connection. `is_server`: the adversary dials the node's real `Listener`
+    /// (accept -> `ConnectionOpened { is_server: true }`); otherwise the node dials the adversary's
+    /// listener through the real `ractor_cluster::client_connect` (`node/client.rs: connect`).
+    /// Event-driven: the dial is a blocking connect (handshake complete on return), the accept and the
+    /// appearance of the node's session actor are waited for (bounded), never assumed.
+    async fn connect_tcp(&mut self, is_server: bool) -> Conn {
+        let before: Vec<_> = self.node.get_children().iter().map(|c| c.get_id()).collect();
+        let port = self.this_conn.as_deref().and_then(tcpq::port_of).expect("node port");
+        self.label += 1;
+        let stream = if is_server {
+            tcpq::dial(port).expect("dial the node's listener")
+        } else {
+            let (l, p) = tcpq::listen().expect("adversary listener");
+            let node = self.node.clone();
+            let h = tokio::spawn(async move { ractor_cluster::client_connect(&node, ("127.0.0.1", p)).await.is_ok() });
+            let s = tcpq::accept_one(&l, 20).await.expect("the node did not connect");
+            assert!(h.await.unwrap_or(false), "client_connect failed on an accepting listener");
+            s
+        };
+        let node = self.node.clone();
+        let mut cell = None;
+        tcpq::wait_until(
+            || {
+                cell = node.get_children().into_iter().find(|c| !before.contains(&c.get_id()));
+                cell.is_some()
+            },
+            20,
+        )
+        .await;
+        use std::os::fd::AsRawFd;
+        let fd = stream.as_raw_fd();
+        let ports = (stream.local_addr().map(|a| a.port()).unwrap_or(0), stream.peer_addr().map(|a| a.port()).unwrap_or(0));
+        let (mut tr, tw) = stream.into_split();
+        let (pipe_r, mut pipe_w) = tokio::io::duplex(1 << 22);
+        // our end is read continuously (a receive queue nobody drains is not "quiet")
+        let pump = tokio::spawn(async move {
+            let mut b = [0u8; 4096];
+            loop {
+                match tr.read(&mut b).await {
+                    Ok(0) | Err(_) => break,
+                    Ok(n) => {
+                        if pipe_w.write_all(&b[..n]).await.is_err() {
+                            break;
+                        }
+                    }
+                }
+            }
+        });
+        quiesce().await;
+        let frag = Rng::new(0x7C9 ^ (self.label << 20) ^ port as u64);
+        Conn { r: Box::new(pipe_r), w: None, tcp_fd: Some(fd), tcp_ports: Some(ports), tw: Some(tw), pump: Some(pump), frag: Some(frag), buf: Vec::new(), cell, is_server, chals: Vec::new(), last_issued: None, last_digest: None }
     }
 
     async fn spawn_probe(&mut self, remotable: bool, group: Option<(&str, &str)>) -> u64 {
@@ -1142,7 +1291,20 @@ fn padded_frame(server_side: bool, len: usize, id: u64) -> Option<String> {
 
 async fn op_drop(w: &mut World, log: &mut Log, st: &mut Stats, k: u64) {
     if let Some(c) = w.conns.get_mut(&k) {
-        if let Some(mut wh) = c.w.take() {
+        if c.frag.is_some() {
+            // real socket: FIN (half or full close) or RST; the session's death is waited for
+            // (bounded) - if it never comes the observation says alive=1 and the model disagrees
+            let how = c.tcp_drop().await;
+            st.bump(&format!("tcp_drop_{how}"));
+            // event-driven: until the node's socket has RECEIVED our FIN / RST (it leaves ESTABLISHED -
+            // read off the kernel), then rest; the session must be dead at that rest point: waiting for
+            // its death instead would let the ping loop (virtual seconds later) hide a reader that
+            // ignores the end of the stream
+            if let Some((ours, nodes)) = c.tcp_ports {
+                tcpq::wait_until(|| tcpq::sock_state(nodes, ours) != Some(1), 10).await;
+            }
+            quiesce().await;
+        } else if let Some(mut wh) = c.w.take() {
             let _ = wh.shutdown().await; // the node reads EOF
         }
         let (obs, _) = w.observe(k).await;
@@ -1911,6 +2073,8 @@ async fn run(args: Args) {
     let mut log = Log::create(std::path::Path::new(&out)).unwrap();
     let mut st = Stats::default();
     let mut rng = Rng::new(seed);
+    let tcp = args.u64("tcp", 0) == 1;
+    TCP.store(tcp, std::sync::atomic::Ordering::Relaxed);
     for f in args.str("replay-ops", "").split(',').filter(|f| !f.is_empty()) {
         replay_ops(&mut log, &mut st, f).await;
     }
@@ -1920,6 +2084,14 @@ async fn run(args: Args) {
         // the C18 end-to-end engine for legacy / repeated-nonce duplicate dials
         for c in 0..legacy_cases {
             legacy_case(&mut log, &mut st, &mut rng, c).await;
+        }
+    } else if tcp && wire_cases == 0 && args.u64("only-replay", 0) != 1 {
+        // only the end-to-end engine has a transport
+        for c in 0..cases {
+            lts_case(&mut log, &mut st, &mut rng, c).await;
+            if c % 10 == 3 {
+                relay_case(&mut log, &mut st, &mut rng, c).await;
+            }
         }
     } else if wire_cases > 0 {
         // the C19 liveness engine: only the wire-fault scenarios
@@ -1936,6 +2108,9 @@ async fn run(args: Args) {
                 relay_case(&mut log, &mut st, &mut rng, c).await;
             }
         }
+    }
+    if tcp {
+        tcpq::stats(&mut st);
     }
     st.write_json(&std::path::Path::new(&out).join("stats.json"));
     let n = log.lines;
